@@ -6,11 +6,14 @@ from .rules import Report
 def run_C01(rep, g):
     F = rules.check_ctor(rep, g)
     rules.check_into_inner(rep, g)
+    rules.check_hygiene(rep, g)
     return F
 
 
 def run_C03(rep, g):
     rules.check_conversions(rep, g)
+    if g.d.get('default') is not None:
+        rules.check_hygiene(rep, g)   # the default expression is spliced into a generated body
 
 
 def run_C04(rep, g):
@@ -53,6 +56,8 @@ def run_C12(rep, g):
 
 def run_C14(rep, g):
     if g.d['family'] == 'int' and 'Arbitrary' in g.d['derives']:
+        if not g.d.get('custom'):
+            rep.ob('R-IMPL', rules_arb.arb_impl(g) is not None, g, 'an accepted derive(Arbitrary) yields an Arbitrary impl for the type', {})
         rules_arb.check_arbitrary_int(rep, g, equality=True)
 
 
@@ -60,6 +65,10 @@ def run_C09(rep, g):
     if 'Arbitrary' not in g.d['derives']:
         return
     fam = g.d['family']
+    # the declaration was accepted with derive(Arbitrary): the impl exists (wherever the expansion puts it)
+    imp0 = rules_arb.arb_impl(g)
+    if not (g.d.get('custom') and fam != 'any'):
+        rep.ob('R-IMPL', imp0 is not None, g, 'an accepted derive(Arbitrary) yields an Arbitrary impl for the type', {})
     if g.d.get('custom') and fam != 'any':
         # the validity of a value is decided by a function of the user's crate: no generator can promise valid values
         imp = rules_arb.arb_impl(g)
